@@ -455,8 +455,7 @@ nodesLoop:
 			tc.addToAncestors(node)
 			// Check the init.
 			if node.Init != nil {
-				// TODO: this type assertion should be removed/handled differently.
-				tc.checkGenericAssignmentNode(node.Init.(*ast.Assignment))
+				tc.checkNodes([]ast.Node{node.Init})
 			}
 			// Check the expression.
 			var texpr *typeInfo
@@ -554,8 +553,7 @@ nodesLoop:
 			tc.scopes.Enter(node)
 			tc.addToAncestors(node)
 			if node.Init != nil {
-				// TODO: this type assertion should be removed/handled differently.
-				tc.checkGenericAssignmentNode(node.Init.(*ast.Assignment))
+				tc.checkNodes([]ast.Node{node.Init})
 			}
 			ta := node.Assignment.Rhs[0].(*ast.TypeAssertion)
 			t := tc.checkExpr(ta.Expr)
